@@ -181,9 +181,9 @@ def _jet_one(exe, fr, workdir):
                 except (socket.timeout, OSError):
                     if proc.poll() is not None or time.monotonic() > t_acc:
                         return {"error": "jet1090 did not connect to the loopback servers"}
-        pause = (JET_WINDOW_MS + 150) / 1e3
-        for i, f in enumerate(fr["frames"], start=1):
-            if i in fr["pause_before"]:
+        pause = (JET_WINDOW_MS + 450) / 1e3           # well after the deduplication window has closed
+        for f in fr["frames"]:
+            if f.get("pause"):
                 time.sleep(pause)
             rxs[f["rx"]].write(pipeline.wire_of(bytes.fromhex(f["beast"])), "whole", False)
             time.sleep(0.004)
